@@ -157,6 +157,10 @@ def worker(shard: dict) -> dict:
         pool = ["a", "b", " ", "\t", "x", "é", "ß", "𝄞", "中", "́", "\ud800"]
         for k in range(shard["count"]):
             n = rnd.choice([0, 1, 2, 10, 40, 200, 1500])
+            if k % 25 == 7:
+                # texts of thousands of lines: offsets around powers of two and near both ends are added below
+                n = rnd.choice([5000, 20000, 70000])
+                acc.count("very_long_texts")
             dens = rnd.choice([0.02, 0.1, 0.3, 0.6])
             t = "".join("\n" if rnd.random() < dens else rnd.choice(pool) for _ in range(n))
             if rnd.random() < 0.3 and t:
@@ -164,7 +168,12 @@ def worker(shard: dict) -> dict:
             if n <= 40:
                 judge_text(t, acc)
             else:
-                offs = sorted({0, len(t), *(rnd.randrange(len(t) + 1) for _ in range(30)), *(i for i, ch in enumerate(t) if ch == "\n" and rnd.random() < 0.1)})
+                offs = sorted({0, len(t), *(rnd.randrange(len(t) + 1) for _ in range(30)), *(i for i, ch in enumerate(t) if ch == "\n" and rnd.random() < (0.1 if n <= 1500 else 0.002))})
+                if n > 1500:
+                    edge = {p + d for e in range(7, 17) for p in (1 << e,) for d in (-1, 0, 1)} | {1, 2, len(t) - 1, len(t) - 2}
+                    offs = sorted(set(offs) | {p for p in edge if 0 <= p <= len(t)})
+                    acc.maxi("longest_text", len(t))
+                    acc.maxi("most_lines", t.count("\n") + 1)
                 prs = [(a, b) for a in offs[::3] for b in offs if b >= a][:200]
                 acc.count("texts")
                 try:
